@@ -222,7 +222,7 @@ func (e *Engine) findIndicesDFA(haystack []byte) (int, int, bool) { //nolint:cyc
 	// Longest (POSIX) mode: DFA uses leftmost-first (break-at-match), which is
 	// incompatible with leftmost-longest semantics. Fall back to PikeVM.
 	if e.longest {
-		return e.pikevm.Search(haystack)
+		return e.pikeSearchAt(haystack, 0)
 	}
 
 	// Literal fast path — complete prefilter returns match directly
@@ -236,7 +236,7 @@ func (e *Engine) findIndicesDFA(haystack []byte) (int, int, bool) { //nolint:cyc
 		if literalLen > 0 {
 			return pos, pos + literalLen, true
 		}
-		return e.pikevm.Search(haystack)
+		return e.pikeSearchAt(haystack, 0)
 	}
 
 	// Prefilter skip-ahead for DFA — safe even with incomplete prefilter.
@@ -250,7 +250,7 @@ func (e *Engine) findIndicesDFA(haystack []byte) (int, int, bool) { //nolint:cyc
 		if e.reverseDFA != nil {
 			return e.findIndicesBidirectionalDFA(haystack, pos)
 		}
-		return e.pikevm.SearchAt(haystack, pos)
+		return e.pikeSearchAt(haystack, pos)
 	}
 
 	// Prefilter-accelerated search: find candidate, verify with anchored DFA.
@@ -312,7 +312,7 @@ func (e *Engine) findIndicesDFA(haystack []byte) (int, int, bool) { //nolint:cyc
 			return -1, -1, false
 		}
 		atomic.AddUint64(&e.stats.PrefilterHits, 1)
-		return e.pikevm.SearchAt(haystack, pos)
+		return e.pikeSearchAt(haystack, pos)
 	}
 
 	// No prefilter: bidirectional DFA or DFA + PikeVM fallback.
@@ -327,7 +327,7 @@ func (e *Engine) findIndicesDFA(haystack []byte) (int, int, bool) { //nolint:cyc
 	}
 
 	// DFA confirmed a match exists - use PikeVM for exact bounds
-	return e.pikevm.Search(haystack)
+	return e.pikeSearchAt(haystack, 0)
 }
 
 // findIndicesDFAAt searches using DFA starting at position - zero alloc.
@@ -336,7 +336,7 @@ func (e *Engine) findIndicesDFAAt(haystack []byte, at int) (int, int, bool) {
 
 	// Longest (POSIX) mode: DFA uses leftmost-first, fall back to PikeVM.
 	if e.longest {
-		return e.pikevm.SearchAt(haystack, at)
+		return e.pikeSearchAt(haystack, at)
 	}
 
 	// Prefilter skip-ahead — safe for all prefilters, DFA verifies.
@@ -350,7 +350,7 @@ func (e *Engine) findIndicesDFAAt(haystack []byte, at int) (int, int, bool) {
 		if e.reverseDFA != nil {
 			return e.findIndicesBidirectionalDFA(haystack, pos)
 		}
-		return e.pikevm.SearchAt(haystack, pos)
+		return e.pikeSearchAt(haystack, pos)
 	}
 
 	if e.reverseDFA != nil {
@@ -364,7 +364,7 @@ func (e *Engine) findIndicesDFAAt(haystack []byte, at int) (int, int, bool) {
 	}
 
 	// DFA confirmed a match exists - use PikeVM for exact bounds
-	return e.pikevm.SearchAt(haystack, at)
+	return e.pikeSearchAt(haystack, at)
 }
 
 // findIndicesDFAAtWithState searches using DFA starting at position, reusing provided state.
@@ -480,7 +480,7 @@ func (e *Engine) findIndicesAdaptive(haystack []byte) (int, int, bool) {
 		}
 
 		// Search from prefilter position - O(m) not O(n)
-		return e.pikevm.SearchAt(haystack, pos)
+		return e.pikeSearchAt(haystack, pos)
 	}
 
 	// Try DFA without prefilter
@@ -495,7 +495,7 @@ func (e *Engine) findIndicesAdaptive(haystack []byte) (int, int, bool) {
 			if endPos > 100 {
 				estimatedStart = endPos - 100
 			}
-			return e.pikevm.SearchAt(haystack, estimatedStart)
+			return e.pikeSearchAt(haystack, estimatedStart)
 		}
 		size, capacity, _, _, _ := e.dfa.CacheStats(state.dfaCache)
 		e.putSearchState(state)
@@ -526,7 +526,7 @@ func (e *Engine) findIndicesAdaptiveAt(haystack []byte, at int) (int, int, bool)
 		}
 
 		// Search from prefilter position - O(m) not O(n)
-		return e.pikevm.SearchAt(haystack, pos)
+		return e.pikeSearchAt(haystack, pos)
 	}
 
 	// Try DFA without prefilter
@@ -541,7 +541,7 @@ func (e *Engine) findIndicesAdaptiveAt(haystack []byte, at int) (int, int, bool)
 			if endPos > at+100 {
 				estimatedStart = endPos - 100
 			}
-			return e.pikevm.SearchAt(haystack, estimatedStart)
+			return e.pikeSearchAt(haystack, estimatedStart)
 		}
 		size, capacity, _, _, _ := e.dfa.CacheStats(state.dfaCache)
 		e.putSearchState(state)
@@ -750,7 +750,7 @@ func (e *Engine) findIndicesBoundedBacktracker(haystack []byte) (int, int, bool)
 	// step, not O(states × haystack) like BT visited table.
 	if e.nfa.IsAlwaysAnchored() && !e.boundedBacktracker.CanHandle(len(haystack)) {
 		atomic.AddUint64(&e.stats.NFASearches, 1)
-		return e.pikevm.SearchWithSlotTable(haystack, nfa.SearchModeFind)
+		return e.pikeSearchSlotsAt(haystack, 0)
 	}
 
 	atomic.AddUint64(&e.stats.NFASearches, 1)
@@ -760,7 +760,7 @@ func (e *Engine) findIndicesBoundedBacktracker(haystack []byte) (int, int, bool)
 		if e.dfa != nil && e.reverseDFA != nil {
 			return e.findIndicesBidirectionalDFALongest(haystack, 0)
 		}
-		return e.pikevm.SearchWithSlotTable(haystack, nfa.SearchModeFind)
+		return e.pikeSearchSlotsAt(haystack, 0)
 	}
 
 	state := e.getSearchState()
@@ -802,9 +802,11 @@ func (e *Engine) findIndicesBoundedBacktrackerAt(haystack []byte, at int) (int, 
 				if e.dfa != nil && e.reverseDFA != nil {
 					return e.findIndicesBidirectionalDFALongest(haystack, at)
 				}
-				return e.pikevm.SearchWithSlotTableAt(haystack, at, nfa.SearchModeFind)
+				return e.pikeSearchSlotsAt(haystack, at)
 			}
-			start, end, found := e.asciiBoundedBacktracker.Search(remaining)
+			state := e.getSearchState()
+			defer e.putSearchState(state)
+			start, end, found := e.asciiBoundedBacktracker.SearchWithState(remaining, state.backtracker)
 			if found {
 				return at + start, at + end, true
 			}
@@ -1260,14 +1262,14 @@ func (e *Engine) findIndicesBoundedBacktrackerAtWithState(haystack []byte, at in
 				maxInput := e.asciiBoundedBacktracker.MaxInputSize()
 				if maxInput > 0 && len(remaining) > maxInput {
 					window := remaining[:maxInput]
-					start, end, found := e.asciiBoundedBacktracker.Search(window)
+					start, end, found := e.asciiBoundedBacktracker.SearchWithState(window, state.backtracker)
 					if found {
 						return at + start, at + end, true
 					}
 				}
 				return state.pikevm.SearchWithSlotTableAt(haystack, at, nfa.SearchModeFind)
 			}
-			start, end, found := e.asciiBoundedBacktracker.Search(remaining)
+			start, end, found := e.asciiBoundedBacktracker.SearchWithState(remaining, state.backtracker)
 			if found {
 				return at + start, at + end, true
 			}
